@@ -84,6 +84,7 @@ class World(object):
         self.formats = {}
         self.raws = {}
         self.snap = {}
+        self.wrap_changed = []
 
     def fmt(self, key, desc):
         if key not in self.formats:
@@ -91,16 +92,32 @@ class World(object):
             self.snap[("f", key)] = listing(self.formats[key])
         return self.formats[key]
 
+    SCRIPT_NAMES = ["prog", " console", "\tmy console", "", "a b", "prog\n", "-x", "--", "pröǵ"]
+
     def raw(self, key, tokens):
         if key not in self.raws:
-            argv = ["prog"] + list(tokens)
-            r = self.api.ArgvArgs(argv)
+            script = self.SCRIPT_NAMES[len(self.raws) % len(self.SCRIPT_NAMES)]
+            argv = [script] + list(tokens)
+            before = list(argv)
+            if len(self.raws) % 4 == 3:
+                # the form without an argument wraps the interpreter's own argv list
+                import sys
+
+                saved, sys.argv = sys.argv, argv
+                try:
+                    r = self.api.ArgvArgs()
+                finally:
+                    sys.argv = saved
+            else:
+                r = self.api.ArgvArgs(argv)
             self.raws[key] = (r, argv)
-            self.snap[("r", key)] = (list(argv), list(r.tokens), list(r.option_tokens), r.script_name)
+            if argv != before:
+                self.wrap_changed.append("wrapping %r as ArgvArgs changed the list to %r" % (before, argv))
+            self.snap[("r", key)] = (before, list(r.tokens), list(r.option_tokens), r.script_name)
         return self.raws[key][0]
 
     def changed(self):
-        out = []
+        out = list(self.wrap_changed)
         for key, f in self.formats.items():
             if listing(f) != self.snap[("f", key)]:
                 out.append("format %r listing changed" % (key,))
